@@ -363,7 +363,7 @@ def _secret_case(draw):
         from ..gen import secrets as S
 
         k = draw(st.integers(0, 2))
-        enc = draw(S.j9_value(plain=value))
+        enc = draw(S.j9_value(plain=value, damaged=False))
         prelude.append(["set password " + enc, 'set system login user x authentication encrypted-password "' + enc + '"', "snmp-server community " + value + "x ro"][k])
         if draw(st.booleans()):
             prelude.append("password someOtherSecret9")
